@@ -589,6 +589,17 @@ impl<'a> Run<'a> {
             self.fail(&["C15"], "C15/applied-differs-from-added".into(), format!("access records applied {} != AccessAdded {} ({})", self.sut.applied(), added, context));
             return;
         }
+        // every record handed to the sketch advanced its ageing window by one (the window restarts at exactly `counters` records)
+        if self.sut.background_exits().is_empty() {
+            let counters = self.cfg.sut.counters.max(1);
+            let position = self.sut.cache.verif_sketch_total_increments();
+            if position != self.sut.applied() % counters {
+                self.fail(&["C15", "C14"], "C15/delivered-records-missing-from-the-sketch-window".into(),
+                          format!("{} access records were handed to the sketch ({} counters per window) but it stands at position {} of its window instead of {} ({})", self.sut.applied(), counters, position, self.sut.applied() % counters, context));
+                return;
+            }
+            if self.sut.applied() > counters { self.crit("sketch-window-restarted-with-records-accounted"); }
+        }
         if misses == 0 && hits > 0 { self.crit("all-hit-prefix"); }
         if hits == 0 && misses > 0 { self.crit("all-miss-prefix"); }
         self.counts.inc("stats_checks");
